@@ -44,7 +44,8 @@ TOLERANCES = {"mielens-vs-lens": 1e-5, "quad-refine": 1e-5,
 TIMEOUT = 900
 
 AXES = {
-    "m": [1.2, 1.05, 1.5, 2.5],
+    # (absorbing spheres last: appended so that earlier case ids stay)
+    "m": [1.2, 1.05, 1.5, 2.5, 1.2 + 0.02j, 1.5 + 0.5j],
     "x": [5.0, 0.1, 1.0, 20.0, 50.0],
     "kz": [20.0, -150.0, -20.0, -1.0, 5.0, 50.0, 300.0],
     "ang": [0.8, 0.1, 0.5, 1.0, 1.4],
